@@ -44,8 +44,11 @@ enum PK {
     /// installation on a function whose entry straddles two pages while the OS refuses to make the SECOND page
     /// writable: refused, and not one byte of the function written
     MprotectFailSecondPage,
+    /// a second installation on a function this injector has ALREADY faked is refused (signature mismatch): the
+    /// function is a refused target too - untouched means its earlier fake stays in effect, bytes unchanged
+    SigMismatchOnFakedTarget,
 }
-const KINDS_ALL: [PK; 19] = [PK::UserMunmapFails, PK::MprotectFailSecondPage, PK::UserNonString, PK::UserInReturns, PK::UserInClosure, PK::OverCallCaught, PK::None, PK::User, PK::WhenReject, PK::OverCall, PK::SigMismatch, PK::SigMismatchFakeMacro, PK::NullTarget, PK::NullFake, PK::BoolOnNonBool, PK::AsyncWrongOutput, PK::MmapFail, PK::MprotectFail, PK::UncheckedMix];
+const KINDS_ALL: [PK; 20] = [PK::SigMismatchOnFakedTarget, PK::UserMunmapFails, PK::MprotectFailSecondPage, PK::UserNonString, PK::UserInReturns, PK::UserInClosure, PK::OverCallCaught, PK::None, PK::User, PK::WhenReject, PK::OverCall, PK::SigMismatch, PK::SigMismatchFakeMacro, PK::NullTarget, PK::NullFake, PK::BoolOnNonBool, PK::AsyncWrongOutput, PK::MmapFail, PK::MprotectFail, PK::UncheckedMix];
 
 #[derive(Clone, Debug)]
 struct Script {
@@ -184,6 +187,7 @@ fn body(pool: &Pool, s: &Script, rng: &mut Rng, obs: &mut Obs) {
     // the over-call / when-reject victims: a method fake with `when: a == 5` and budget 1
     let method = pool.targets.iter().position(|t| t.fam == Fam::Method).unwrap();
     let mut step = 0usize;
+    let last_installed: std::cell::Cell<Option<(usize, i64)>> = std::cell::Cell::new(None);
     let mut inject = |inj: &mut InjectorPP, obs: &mut Obs| {
         let m0 = ip::mark();
         // run the refused API call under its own catch so that the events can be counted, then
@@ -205,6 +209,20 @@ fn body(pool: &Pool, s: &Script, rng: &mut Rng, obs: &mut Obs) {
             PK::None => {}
             PK::User => panic!("USER: injected at position {}", s.pos),
             PK::UserNonString => std::panic::panic_any(0xC05_u32),
+            PK::SigMismatchOnFakedTarget => match last_installed.get() {
+                Some((ti, expect)) if matches!(pool.targets[ti].fam, Fam::I32 | Fam::Bool | Fam::Gen8 | Fam::Gen16 | Fam::Gen32 | Fam::Method | Fam::LibcInt | Fam::LibcLong | Fam::LibcStr) => {
+                    let t = &pool.targets[ti];
+                    let img0 = img(t.addr);
+                    let r = std::panic::catch_unwind(std::panic::AssertUnwindSafe(|| inj.when_called((t.mk)()).will_execute_raw(injectorpp::func!(fn (wrong_sig)(i64) -> i32))));
+                    if img(t.addr) != img0 || (t.call)() != expect {
+                        obs.refused_target_intact = false;
+                    }
+                    if let Err(e) = r {
+                        std::panic::resume_unwind(e);
+                    }
+                }
+                _ => refuse(&mut |inj| inj.when_called(injectorpp::func!(fn (refuse_me)() -> i32)).will_execute_raw(injectorpp::func!(fn (wrong_sig)(i64) -> i32)), obs, inj),
+            },
             PK::UserMunmapFails => {
                 ip::arm_fail_range(ip::K_MUNMAP, 0, i64::MAX);
                 panic!("USER: injected at position {} (munmap refused from here on)", s.pos)
@@ -285,6 +303,7 @@ fn body(pool: &Pool, s: &Script, rng: &mut Rng, obs: &mut Obs) {
             inject(&mut inj, obs);
         }
         step += 1;
+        last_installed.set(Some((*ti, inst.expect)));
         let got = (pool.targets[*ti].call)();
         if got != inst.expect {
             panic!("USER: HARNESS-MODEL fake not in effect: {} != {}", got, inst.expect);
@@ -412,7 +431,7 @@ pub fn run(ctx: &Ctx) {
             PK::OverCallCaught => "count-mismatch",
             PK::WhenReject => "unexpected-args",
             PK::OverCall => "over-called",
-            PK::SigMismatch | PK::SigMismatchFakeMacro | PK::AsyncWrongOutput | PK::UncheckedMix => "sig-mismatch",
+            PK::SigMismatch | PK::SigMismatchFakeMacro | PK::AsyncWrongOutput | PK::UncheckedMix | PK::SigMismatchOnFakedTarget => "sig-mismatch",
             PK::NullTarget | PK::NullFake => "null-pointer",
             PK::BoolOnNonBool => "bool-sig-mismatch",
             PK::MmapFail => "alloc-failed",
